@@ -1021,6 +1021,68 @@ unsafe impl Sync for Column {}
 impl UnwindSafe for Column {}
 impl RefUnwindSafe for Column {}
 
+#[cfg(feature = "verif-hooks")]
+impl Archetypes {
+    pub(crate) fn verif_snapshot(&self, out: &mut alloc::string::String) {
+        use core::fmt::Write;
+        for (idx, arch) in &self.archetypes {
+            write!(out, "arch {idx} index={} comps=[", arch.index.0).unwrap();
+            for (i, c) in arch.component_indices().iter().enumerate() {
+                write!(out, "{}{}", if i > 0 { "," } else { "" }, c.0).unwrap();
+            }
+            out.push_str("] ids=[");
+            for (i, e) in arch.entity_ids.iter().enumerate() {
+                write!(out, "{}{}v{}", if i > 0 { "," } else { "" }, e.index().0, e.generation()).unwrap();
+            }
+            out.push_str("] ins=[");
+            for (i, (c, a)) in arch.insert_components.iter().enumerate() {
+                write!(out, "{}{}>{}", if i > 0 { "," } else { "" }, c.0, a.0).unwrap();
+            }
+            out.push_str("] rem=[");
+            for (i, (c, a)) in arch.remove_components.iter().enumerate() {
+                write!(out, "{}{}>{}", if i > 0 { "," } else { "" }, c.0, a.0).unwrap();
+            }
+            out.push_str("] refresh=[");
+            let mut ids: alloc::vec::Vec<_> = arch
+                .refresh_listeners
+                .iter()
+                .map(|p| unsafe { p.as_info() }.id())
+                .collect();
+            ids.sort();
+            for (i, id) in ids.iter().enumerate() {
+                write!(out, "{}{}v{}", if i > 0 { "," } else { "" }, id.index().0, id.generation()).unwrap();
+            }
+            out.push_str("] listeners=[");
+            let mut ls: alloc::vec::Vec<_> = arch
+                .event_listeners
+                .keys()
+                .iter()
+                .zip(arch.event_listeners.values())
+                .collect();
+            ls.sort_by_key(|(k, _)| k.0);
+            for (i, (k, l)) in ls.iter().enumerate() {
+                write!(out, "{}{}:{}", if i > 0 { ";" } else { "" }, k.0, l.verif_dump()).unwrap();
+            }
+            out.push_str("]\n");
+            writeln!(out, "archcap {idx} {}", arch.entity_ids.capacity()).unwrap();
+        }
+        let by_ok = self.by_components.len() == self.archetypes.len()
+            && self.archetypes.iter().all(|(idx, a)| {
+                self.by_components.get(a.component_indices()).map(|i| i.0 as usize) == Some(idx)
+            });
+        writeln!(out, "bycomps n={} exact={}", self.by_components.len(), by_ok).unwrap();
+    }
+
+    /// Overwrites the id stored in an archetype row.
+    pub(crate) fn verif_set_entity_id(&mut self, loc: EntityLocation, id: EntityId) {
+        if let Some(arch) = self.archetypes.get_mut(loc.archetype.0 as usize) {
+            if let Some(slot) = arch.entity_ids.get_mut(loc.row.0 as usize) {
+                *slot = id;
+            }
+        }
+    }
+}
+
 #[cfg(test)]
 mod tests {
     use crate::prelude::*;
